@@ -229,8 +229,12 @@ def case_latlon(case):
     exp, cnt = ov.unstructured(f[None, :], edges, dist, "m")
     r.true("radian run == great-circle pair enumeration", np.array_equal(c0, cnt) and np.allclose(g0, exp, rtol=1e-12, atol=1e-14), info={"g": g0.tolist(), "exp": exp.tolist()})
     for gsc in (gs.DEGREE_SCALE, gs.KM_SCALE, 17.3, 0.01):
-        g, c = _est(pos, f, edges * gsc, latlon=True, geo_scale=gsc)
+        be = edges * gsc  # one edge array reused by several calls, as a user does for several fields
+        g, c = _est(pos, f, be, latlon=True, geo_scale=gsc)
         r.true("great-circle binning in any unit == binning in radians after unit conversion", np.array_equal(c, c0) and np.allclose(g, g0, rtol=1e-12, atol=1e-14), info={"g": g.tolist(), "g0": g0.tolist(), "c": c.tolist(), "c0": c0.tolist()}, geo_scale=gsc)
+        bc2, g2, c2 = gs.vario_estimate(pos, f, be, latlon=True, geo_scale=gsc, return_counts=True)
+        r.true("second call with the same bin-edge array gives the same estimate", np.array_equal(c2, c0) and np.allclose(g2, g0, rtol=1e-12, atol=1e-14), info={"g": np.asarray(g2).tolist(), "g0": g0.tolist()}, geo_scale=gsc)
+        r.close("bin centers are the midpoints of the given edges (in the given unit)", bc2, (edges[1:] + edges[:-1]) / 2 * gsc, rtol=1e-13, geo_scale=gsc)
         # standard bins scale with the unit and follow the documented rule
         sb = gs.variogram.standard_bins(pos, latlon=True, geo_scale=gsc)
         sb1 = gs.variogram.standard_bins(pos, latlon=True)
